@@ -32,6 +32,7 @@ Clauses of the property and where they are:
 * pass 3: `weightMat_documented` (documented weights never raise), `lm_normal_item` (JᵀWJ = Σ_items J_tᵀ W_t J_t),
   `gn_step_spec` (end to end), `lm_Ak_posDef_of_full_rank`, `lm_A0_indefinite_when_max_cuts`, glue: `served_default`,
   `served_one_kernel`, `served_kernel_list`, `served_user`, `step_weight_overrides`, `residuals_spec`, `lm_defaults_ok`
+* pass 4: `normal_split`, `rhs_split`, `normal_split_unweighted` (whole batch = sum over pieces), `clamp_ties`
 -/
 namespace PP.GNStep
 open Finset Matrix
@@ -914,5 +915,75 @@ example : (toMat 1 1 (lmAk (lmA0 1 (1/2) 8 (some fun _ _ => 1) fun _ _ => 2) [])
     have : i = 0 := by omega
     subst this
     simp [lmNormal, lmJT, sumN]; norm_num
+
+/-! ## pass 4: split consistency (large batches), exact ties at the clamp bounds -/
+
+/-- **Split consistency of the normal matrix**: if the weight does not couple the first `m₁` rows with the remaining `m₂`
+(block-diagonal weights never do across items), `JᵀWJ` of the whole batch is the sum of the two pieces' `JᵀWJ`. -/
+theorem normal_split (m₁ m₂ : Nat) (W J : Nat → Nat → ℝ)
+    (hW : ∀ r s, (r < m₁ ∧ m₁ ≤ s) ∨ (s < m₁ ∧ m₁ ≤ r) → W r s = 0) (i j : Nat) :
+    lmNormal (m₁ + m₂) (lmJT (m₁ + m₂) (some W) J) J i j
+      = lmNormal m₁ (lmJT m₁ (some W) J) J i j
+        + lmNormal m₂ (lmJT m₂ (some fun r s => W (m₁ + r) (m₁ + s)) fun r c => J (m₁ + r) c) (fun r c => J (m₁ + r) c) i j := by
+  simp only [lmNormal, lmJT, sumN_eq]
+  rw [sum_range_add]
+  congr 1
+  · apply sum_congr rfl
+    intro s hs
+    have hs := mem_range.mp hs
+    rw [sum_range_add]
+    have : ∑ x ∈ range m₂, J (m₁ + x) i * W (m₁ + x) s = 0 := by
+      apply sum_eq_zero; intro x _
+      rw [hW (m₁ + x) s (Or.inr ⟨hs, by omega⟩), mul_zero]
+    rw [this, add_zero]
+  · apply sum_congr rfl
+    intro s _
+    rw [sum_range_add]
+    have : ∑ x ∈ range m₁, J x i * W x (m₁ + s) = 0 := by
+      apply sum_eq_zero; intro x hx
+      rw [hW x (m₁ + s) (Or.inl ⟨mem_range.mp hx, by omega⟩), mul_zero]
+    rw [this, zero_add]
+
+/-- the same for the right-hand side `-JᵀWR` -/
+theorem rhs_split (m₁ m₂ : Nat) (W J : Nat → Nat → ℝ) (R : Nat → ℝ)
+    (hW : ∀ r s, (r < m₁ ∧ m₁ ≤ s) ∨ (s < m₁ ∧ m₁ ≤ r) → W r s = 0) (i : Nat) :
+    lmb (m₁ + m₂) (lmJT (m₁ + m₂) (some W) J) R i
+      = lmb m₁ (lmJT m₁ (some W) J) R i
+        + lmb m₂ (lmJT m₂ (some fun r s => W (m₁ + r) (m₁ + s)) fun r c => J (m₁ + r) c) (fun r => R (m₁ + r)) i := by
+  simp only [lmb, lmJT, sumN_eq]
+  rw [sum_range_add]
+  congr 1
+  · apply sum_congr rfl
+    intro s hs
+    have hs := mem_range.mp hs
+    rw [sum_range_add]
+    have : ∑ x ∈ range m₂, J (m₁ + x) i * W (m₁ + x) s = 0 := by
+      apply sum_eq_zero; intro x _
+      rw [hW (m₁ + x) s (Or.inr ⟨hs, by omega⟩), mul_zero]
+    rw [this, add_zero]
+  · apply sum_congr rfl
+    intro s _
+    rw [sum_range_add]
+    have : ∑ x ∈ range m₁, J x i * W x (m₁ + s) = 0 := by
+      apply sum_eq_zero; intro x hx
+      rw [hW x (m₁ + s) (Or.inl ⟨mem_range.mp hx, by omega⟩), mul_zero]
+    rw [this, zero_add]
+
+/-- unweighted: `JᵀJ` of a stacked Jacobian is the sum of the pieces' `JᵀJ`, for every cut -/
+theorem normal_split_unweighted (m₁ m₂ : Nat) (J : Nat → Nat → ℝ) (i j : Nat) :
+    lmNormal (m₁ + m₂) (lmJT (m₁ + m₂) none J) J i j
+      = lmNormal m₁ (lmJT m₁ none J) J i j + lmNormal m₂ (lmJT m₂ none fun r c => J (m₁ + r) c) (fun r c => J (m₁ + r) c) i j := by
+  simp only [lmNormal, lmJT, sumN_eq]
+  rw [sum_range_add]
+
+/-- **Exact ties at the clamp bounds**: a diagonal entry that equals `min` or `max` is left exactly as it is, and with
+`min = max` every entry becomes that value -/
+theorem clamp_ties (lo hi x : ℝ) (h : lo ≤ hi) :
+    sclamp lo hi lo = lo ∧ sclamp lo hi hi = hi ∧ sclamp lo lo x = lo := by
+  refine ⟨?_, ?_, ?_⟩
+  · rw [sclamp_real, max_self, min_eq_right h]
+  · rw [sclamp_real, max_eq_right h, min_self]
+  · rw [sclamp_real]; exact min_eq_left (le_max_left _ _)
+
 
 end PP.GNStep
